@@ -6,6 +6,8 @@
 #include <asl/WebSocket.h>
 #include <asl/Socket.h>
 #include <sys/socket.h>
+#include <netinet/in.h>
+#include <arpa/inet.h>
 #include <sys/ioctl.h>
 #include <poll.h>
 #include <fcntl.h>
@@ -597,6 +599,71 @@ static std::string step(const Toks& t)
 		listener.close();
 		if (cneg || srv.negative) return "negative-length";
 		return std::string("connect=") + (connected ? "1" : "0") + " s=" + showList(srv.got) + " c=" + showList(cgot);
+	}
+	if (op == "chs" && t.size() == 4)
+	{
+		// client handshake: the library's connect() against a raw listener on loopback that reads the request up to the
+		// empty line, answers the given bytes and shuts its sending side down
+		std::string st = unhex(t[1]), path = unhex(t[2]), resp = unhex(t[3]);
+		if (st.size() != 32 || path.empty() || path[0] != '/') return "bad-op";
+		int ls = ::socket(AF_INET, SOCK_STREAM, 0);
+		if (ls < 0) return "err socket";
+		struct sockaddr_in a;
+		memset(&a, 0, sizeof a);
+		a.sin_family = AF_INET;
+		a.sin_addr.s_addr = htonl(INADDR_LOOPBACK);
+		a.sin_port = 0;
+		socklen_t alen = sizeof a;
+		if (::bind(ls, (struct sockaddr*)&a, sizeof a) != 0 || ::listen(ls, 1) != 0 || getsockname(ls, (struct sockaddr*)&a, &alen) != 0) { ::close(ls); return "err bind"; }
+		int port = ntohs(a.sin_port);
+		std::string req;
+		std::thread peer([&]() {
+			struct pollfd p; p.fd = ls; p.events = POLLIN; p.revents = 0;
+			if (poll(&p, 1, 20000) <= 0) return;
+			int fd = ::accept(ls, 0, 0);
+			if (fd < 0) return;
+			char buf[4096];
+			while (req.find("\r\n\r\n") == std::string::npos)
+			{
+				p.fd = fd; p.events = POLLIN; p.revents = 0;
+				if (poll(&p, 1, 20000) <= 0) break;
+				ssize_t n = ::read(fd, buf, sizeof buf);
+				if (n <= 0) break;
+				req.append(buf, (size_t)n);
+			}
+			size_t off = 0;
+			while (off < resp.size())
+			{
+				ssize_t n = ::send(fd, resp.data() + off, resp.size() - off, MSG_NOSIGNAL);
+				if (n <= 0) break;
+				off += (size_t)n;
+			}
+			shutdown(fd, SHUT_WR);
+			for (;;)
+			{
+				p.fd = fd; p.events = POLLIN; p.revents = 0;
+				if (poll(&p, 1, 20000) <= 0) break;
+				ssize_t n = ::read(fd, buf, sizeof buf);
+				if (n <= 0) break;
+				req.append(buf, (size_t)n);
+			}
+			::close(fd);
+		});
+		bool connected;
+		{
+			WS ws(Socket(), true);
+			ws.setRng(st);
+			connected = ws.connect(String("ws://127.0.0.1") + String(path.data(), (int)path.size()), port);
+			ws.close();
+		}
+		peer.join();
+		::close(ls);
+		// the port is chosen by the system: checked here, printed as PORT
+		std::string hostline = "Host: 127.0.0.1:" + str((long long)port) + "\r\n";
+		size_t at = req.find(hostline);
+		if (at == std::string::npos) return "host-line-missing " + hex(req);
+		req.replace(at, hostline.size(), "Host: 127.0.0.1:PORT\r\n");
+		return std::string("connect=") + (connected ? "1" : "0") + " req=" + hex(req);
 	}
 	return "bad-op";
 }
